@@ -28,7 +28,7 @@ BATCH = 20
 COMPONENTS = {"real": ["twisted.internet.base.ReactorBase.callFromThread/runUntilCurrent/wakeUp/mainLoop", "twisted.internet.posixbase._UnixWaker (real OS pipe)",
                        "selectreactor/pollreactor/epollreactor doIteration", "asyncioreactor.AsyncioSelectorReactor.callFromThread/run + asyncio's SelectorEventLoop (real self-pipe)"],
               "stub": ["OS thread scheduling (detsim.threads baton)", "select/poll/epoll/selector syscalls (detsim.kernel pollers; real fds polled with zero timeout)", "wall clock"]}
-RULE = ("run = one tape-chosen reactor running its real main loop, 1..6 producer threads each issuing 1..12 callFromThread calls (some calls re-issue callFromThread from the reactor thread), "
+RULE = ("run = one tape-chosen reactor running its real main loop, 1..6 producer threads each issuing 1..12 callFromThread calls (some calls re-issue callFromThread from the reactor thread; in half of the runs a fifth of the calls raise after doing their work), "
         "far-future timers and an idle listening socket present; interleaving chosen at poller boundaries and at lines of the reactor source with probability p in {0, .05, .2} under a uniform scheduler, or under a PCT (priority) scheduler with few long-lasting pre-emptions; "
         "non-trivial = >= 2 producers and the reactor actually blocked in its poller at least once while producers were still running, or a line-level pre-emption fired")
 ASSUMPTIONS = ["the reactor's clock is strictly increasing between two readings (monotonic clock with sub-call resolution)", "CPython list.append / slice deletion are atomic between trace 'line' events (the GIL guarantee the code relies on)",
@@ -44,7 +44,8 @@ def run(sim):
     policy = sim.draw_choice(["uniform", "pct"], "sched_policy")
     if policy == "pct" and preempt:
         preempt = sim.draw_choice([0.004, 0.015], "pct_change_p")   # few, long-lasting pre-emptions (see detsim.threads.Scheduler)
-    sim.config = {"reactor": kind, "producers": nprod, "preempt_p": preempt, "far_timer": with_timer, "policy": policy}
+    raising = sim.draw_bool(0.5, "raising_calls")
+    sim.config = {"reactor": kind, "producers": nprod, "preempt_p": preempt, "far_timer": with_timer, "policy": policy, "raising_calls": raising}
     now = [0.0]
     kern = K.Kernel(sim)
     kern.permute_ready = False
@@ -98,13 +99,17 @@ def run(sim):
             if with_timer:
                 r.callLater(1000.0, lambda: None)                              # an unrelated, far timer
 
-            def record(p, k, again):
+            def record(p, k, again, boom=False):
                 ran.append((p, k))
                 ran_thread.append(sched.me())
                 if again:
                     # a call issued from the reactor thread itself
                     issued.append(("r" + p, k))
                     r.callFromThread(record, "r" + p, k, False)
+                if boom:
+                    # a call may fail; the reactor logs the failure and every other call still runs exactly once
+                    sim.fault("call_raised")
+                    raise RuntimeError("call %s/%d fails" % (p, k))
 
             def reactor_main():
                 st["reactor_thread"] = sched.me()
@@ -115,9 +120,10 @@ def run(sim):
                     for _ in range(sim.draw_int(0, 2, "pause")):
                         sched.point("producer-pause")
                     again = sim.draw_bool(0.15, "again")
+                    boom = raising and sim.draw_bool(0.2, "raises")
                     issued.append(("p%d" % p, k))
                     sim.event("issue", p, k)
-                    r.callFromThread(record, "p%d" % p, k, again)
+                    r.callFromThread(record, "p%d" % p, k, again, boom)
 
             rt = sched.spawn("reactor", reactor_main)
             prods = [sched.spawn("prod%d" % p, producer, p, sim.draw_int(1, 12, "ncalls")) for p in range(nprod)]
